@@ -10,6 +10,8 @@ use num_bigint::Sign;
 pub fn run(r: &mut Rec) {
     numth::run_roots(r);
     text::run(r);
+    // the MIN / MAX of every scalar type through every operator form (overflow-checked and wrapping builds must agree)
+    crate::drivers::forms::extremes(r);
     // cross-section: arithmetic, division conventions, bits, conversions on fixed operands
     let mut rng = Rng(r.seed ^ 0xC16);
     for k in 0..40 {
